@@ -31,10 +31,21 @@ SELF_ESCAPABLE = {0x22, 0x27, 0x5C}   # \" \' \\ denote the character itself
 PY_ESCAPE_OK = {0x09, 0x0A, 0x0D}     # python unicode-escape gives \t \n \r, which Java reads the same way
 
 
-def breakpoints(fnode):
-    pts = {0, 0x110000, 0x22, 0x23, 0x27, 0x28, 0x5C, 0x5D, 0x09, 0x0A, 0x0B, 0x0D, 0x0E, 0x20, 0x7F, 0x80,
+def breakpoints(fnode, module=None):
+    pts = {0, 0x110000, 0x22, 0x23, 0x27, 0x28, 0x5C, 0x5D, 0x08, 0x09, 0x0A, 0x0B, 0x0C, 0x0D, 0x0E, 0x20, 0x7F, 0x80,
            0xD800, 0xDC00, 0xE000, 0x10000}
-    for n in ast.walk(fnode):
+    roots = [fnode]
+    if module is not None:
+        # constants of module-level tables / helper functions the function refers to by name
+        seen = set()
+        for n in ast.walk(fnode):
+            if isinstance(n, ast.Name) and n.id not in seen:
+                seen.add(n.id)
+                if n.id in module.assigns:
+                    roots.append(module.assigns[n.id])
+                elif n.id in module.functions and module.functions[n.id].node is not fnode:
+                    roots.append(module.functions[n.id].node)
+    for n in (x for r in roots for x in ast.walk(r)):
         if isinstance(n, ast.Constant):
             if isinstance(n.value, str) and len(n.value) == 1:
                 pts.update((ord(n.value), ord(n.value) + 1))
@@ -74,7 +85,7 @@ def run(ctx):
     loops = [n for n in f.node.body if isinstance(n, (ast.For, ast.While))]
     ctx.require(len(loops) == 1 and isinstance(loops[0], ast.For) and isinstance(loops[0].iter, ast.Name) and loops[0].iter.id == f.params()[0],
                 "writer.string is no longer a single top-level loop over its argument")
-    classes = breakpoints(f.node)
+    classes = breakpoints(f.node, m)
     ctx.count("classes", len(classes))
     for lo, hi in classes:
         _check_class(ctx, repo, folder, f, lo, hi)
@@ -144,8 +155,25 @@ def _check_class(ctx, repo, folder, f, lo, hi):
             raise AnalysisError("partition too coarse for %s on %s" % (ast.unparse(node), inst))
         return lo_t
 
+    def subscript(it, base, k, e, func):
+        # TABLE[c] with the tracked character as key: select the entry whose key the class equals
+        ck = as_code(k)
+        if isinstance(base, dict) and ck is not None and (ck == ("code", None) or (lo == hi and ck == ("const", lo))):
+            if lo == hi:
+                for kk, vv in base.items():
+                    if isinstance(kk, str) and len(kk) == 1 and ord(kk) == lo:
+                        return vv
+                from ..absint import Raised as _R
+                raise _R("KeyError", e, "U+%04X" % lo)
+            for kk in base:
+                if isinstance(kk, str) and len(kk) == 1 and lo <= ord(kk) <= hi:
+                    raise AnalysisError("partition too coarse for %s on %s" % (ast.unparse(e), inst))
+            from ..absint import Raised as _R
+            raise _R("KeyError", e, inst)
+        return NotImplemented
+
     def run(asg):
-        it = Interp(repo, folder, asg=dict(asg), hooks={"compare": compare})
+        it = Interp(repo, folder, asg=dict(asg), hooks={"compare": compare, "subscript": subscript, "inline_funcs": set(q for q in f.module.functions if "." not in q and q != f.qualname)})
         it.max_split = 0
         out = it.call_function(f, [StrV([code])])
         return out
@@ -165,6 +193,9 @@ def _check_class(ctx, repo, folder, f, lo, hi):
     if items is None:
         raise AnalysisError("writer.string: result shape not understood: %s" % show(r)[:120])
     toks = _tokens(items, code)
+    for t in toks:
+        if t[0] == "other" and isinstance(t[1], (Sym, Lin)):
+            raise AnalysisError("writer.string: for %s a piece of the literal is a term outside the interpreter's fragment: %s" % (inst, show(t[1])[:160]))
     verdict, why = _lex(toks, code, y, lo, hi)
     shown = " ".join(_tokshow(t) for t in toks)
     ctx.check("literal", inst, verdict, f, "%s -> %s" % (_clsname(lo, hi), shown[:140]),
@@ -270,6 +301,21 @@ def _lex(toks, code, y, lo, hi):
         if within(SELF_ESCAPABLE):
             return True, "backslash escape of the character itself"
         return False, "backslash followed by the raw character is only valid for \" ' and \\"
+    NAMED = {"b": 0x08, "t": 0x09, "n": 0x0A, "f": 0x0C, "r": 0x0D, "s": 0x20, '"': 0x22, "'": 0x27, "\\": 0x5C}
+    if len(body) >= 2 and body[0] == ("lit", "\\") and all(t[0] == "lit" for t in body[1:]):
+        rest = "".join(t[1] for t in body[1:])
+        if rest in NAMED:
+            if lo == hi == NAMED[rest]:
+                return True, "escape sequence \\%s" % rest
+            return False, "\\%s denotes U+%04X, not this character" % (rest, NAMED[rest])
+        if rest and all(ch in "01234567" for ch in rest) and len(rest) <= 3:
+            val = int(rest, 8)
+            if len(rest) < 3 and not (len(rest) == 2 and rest[0] in "4567"):
+                return False, ("the octal escape \\%s is shorter than three digits: Java reads following octal digits of the string "
+                               "as part of it (JLS 3.10.6), so it does not denote the character in every context" % rest)
+            if val > 0xFF or not (lo == hi == val):
+                return False, "octal escape \\%s denotes U+%04X, not this character" % (rest, val)
+            return True, "three-digit octal escape"
     if body == [("pyescape",)]:
         if within(PY_ESCAPE_OK):
             return True, "\\t / \\n / \\r"
